@@ -167,8 +167,12 @@ def _digits_guard(call: ast.Call) -> bool:
     """``int(NAME)`` inside ``if NAME in "<digits>"``."""
     if len(call.args) != 1 or not isinstance(call.args[0], ast.Name):
         return False
-    name = call.args[0].id
-    for a in ancestors(call):
+    return _digit_test_encloses(call, call.args[0].id)
+
+
+def _digit_test_encloses(node: ast.AST, name: str) -> bool:
+    """``node`` sits in the true branch of ``if NAME in "<digits>"`` (and NAME is not re-bound in between)."""
+    for a in ancestors(node):
         if isinstance(a, (ast.FunctionDef, ast.Lambda)):
             break
         if isinstance(a, ast.If):
@@ -184,13 +188,41 @@ def _digits_guard(call: ast.Call) -> bool:
                 and t.comparators[0].value
                 and all(ch in "0123456789" for ch in t.comparators[0].value)
             ):
-                # the call must be in the body (true branch)
-                node = call
-                while parent(node) is not a:
-                    node = parent(node)
-                if node in a.body:
-                    return True
+                # the node must be in the body (true branch)
+                n = node
+                while parent(n) is not a:
+                    n = parent(n)
+                if n in a.body:
+                    st_ = node
+                    while not isinstance(st_, ast.stmt) and parent(st_) is not None:
+                        st_ = parent(st_)
+                    lim = getattr(st_, "lineno", 0)  # stores in earlier statements of the guarded branch
+                    rebound = any(
+                        isinstance(x, ast.Name) and x.id == name and isinstance(x.ctx, (ast.Store, ast.Del)) and x.lineno < lim
+                        for s2 in a.body
+                        for x in ast.walk(s2)
+                    )
+                    if not rebound:
+                        return True
     return False
+
+
+def _param_index(fi: FunctionInfo, name: str) -> tuple[int, bool] | None:
+    """(positional index, keyword-capable) of a plain parameter that is never re-bound in the function."""
+    if fi.is_lambda:
+        return None
+    a = fi.node.args
+    pos = [p.arg for p in a.posonlyargs + a.args]
+    kwonly = [p.arg for p in a.kwonlyargs]
+    if name not in pos and name not in kwonly:
+        return None
+    for n in fi.local_nodes():
+        if isinstance(n, ast.Name) and n.id == name and isinstance(n.ctx, (ast.Store, ast.Del)):
+            return None
+    idx = pos.index(name) if name in pos else -1
+    if fi.cls is not None and idx >= 0 and "staticmethod" not in fi.decorators():
+        idx -= 1  # bound call: self/cls is not written at the call site
+    return (idx, True)
 
 
 HEX = set("0123456789ABCDEFabcdef")
@@ -969,6 +1001,8 @@ class EscapeAnalysis:
                     pass
                 elif _digits_guard(call):
                     self._discharge(fi, call, "int(): argument is dominated by a digit-set membership test")
+                elif self._digits_guard_callers(call, fi):
+                    self._discharge(fi, call, "int(): the argument is a parameter; at every call site of the function it is dominated by a digit-set membership test")
                 elif _hex_loop_guard(call):
                     self._discharge(fi, call, "int(.., 16): preceded by a loop raising on the first non-hex digit")
                 elif isinstance(a0, ast.Call) and dotted(a0.func) in ("len", "round", "int", "ord"):
@@ -1054,6 +1088,55 @@ class EscapeAnalysis:
             return bad
 
         return self.c.cache("converter-tables", compute)
+
+    def _digits_guard_callers(self, call: ast.Call, fi: FunctionInfo) -> bool:
+        """``int(PARAM)`` where PARAM is a never re-bound parameter: discharged when the function is only ever
+        called (it is not passed around as a value) and at EVERY call site the corresponding argument is a name
+        dominated by a digit-set membership test."""
+        if len(call.args) != 1 or not isinstance(call.args[0], ast.Name) or call.keywords:
+            return False
+        name = call.args[0].id
+        pi = _param_index(fi, name)
+        if pi is None or fi.cls is not None or fi.parent_func is not None:
+            return False
+        idx = pi[0]
+        sites = self.g.callers().get(fi.fq, [])
+        if not sites or self._used_as_value(fi):
+            return False
+        for caller, c in sites:
+            if any(isinstance(x, ast.Starred) for x in c.args) or any(k.arg is None for k in c.keywords):
+                return False
+            arg = None
+            if 0 <= idx < len(c.args):
+                arg = c.args[idx]
+            for k in c.keywords:
+                if k.arg == name:
+                    arg = k.value
+            if not isinstance(arg, ast.Name) or not _digit_test_encloses(c, arg.id):
+                return False
+        return True
+
+    def _used_as_value(self, fi: FunctionInfo) -> bool:
+        """The function's name occurs somewhere in the package other than as the callee of a call (or its own def)."""
+
+        def compute():
+            refs: dict[str, int] = {}
+            for m in self.c.modules.values():
+                for n in ast.walk(m.tree):
+                    nm = None
+                    if isinstance(n, ast.Name) and isinstance(n.ctx, ast.Load):
+                        nm = n.id
+                    elif isinstance(n, ast.Attribute) and isinstance(n.ctx, ast.Load):
+                        nm = n.attr
+                    if nm is None:
+                        continue
+                    p = parent(n)
+                    if isinstance(p, ast.Call) and p.func is n:
+                        continue
+                    refs[nm] = refs.get(nm, 0) + 1
+            return refs
+
+        return self.c.cache("names-used-as-values", compute).get(fi.name, 0) > 0
 
     def _marked_section_guard(self, fi) -> bool:
         """The class whose method calls ``HTMLParser.feed`` overrides ``parse_marked_section`` such that
